@@ -12,7 +12,8 @@ import Pixman.Spec.SampleGrid
     Reply of the raster requests: `M <model image> S <spec image> F <flags>`; flags:
     `c`,`d`,`a` outside the exact region (an int32 wrap can occur; see `edgeExact`), `t` a visited row
     on which the walked abscissa is not the Spec's `snapX`, `f` the a8 span-fill loop differs from the naive loop, `o` out-of-bounds access,
-    `r` runaway loop, `-` none. -/
+    `r` runaway loop, `g` (addtri) the triangles' own inside test (`Spec.triCount`) differs from the Spec count of the
+    two-trapezoid decompositions although every triangle satisfies the hypotheses of R5, `-` none. -/
 namespace Driver.Trap
 open Pixman.Trap
 open Pixman.Spec.SampleGrid
@@ -117,9 +118,34 @@ def naiveAll (n w h v : Nat) (setups : List (Option (Int × Int × Edge × Edge)
       if n == 8 then edgesLoop8Naive b (rowFuel 8 t b) t l r img else rasterizeEdges n img l r t b
     | none => img) (Img.mk' w h v)
 
-def reply (n : Nat) (m : Img) (sp : Array (Array Nat) × String) (tie : Bool := false) (naive : Option Img := none) : String :=
+/-- the Spec triangle in image space, when it satisfies the hypotheses of R5 (`Props.C12.triangle_tiles`):
+    coordinates plus offsets fit int32, the differences `clockwise` computes do not wrap, not collinear -/
+def specTri (t : Triangle) (xOff yOff : Int) : Option Tri :=
+  let xo := xOff * 65536
+  let yo := yOff * 65536
+  let q : Tri := ⟨t.p1.x + xo, t.p1.y + yo, t.p2.x + xo, t.p2.y + yo, t.p3.x + xo, t.p3.y + yo⟩
+  let fit (v : Int) : Bool := -2147483647 ≤ v && v ≤ 2147483647
+  let ok := [q.x1, q.y1, q.x2, q.y2, q.x3, q.y3].all inI32 && inI32 xo && inI32 yo &&
+    [q.x2 - q.x1, q.x3 - q.x1, q.x3 - q.x2, q.y2 - q.y1, q.y3 - q.y1, q.y3 - q.y2].all fit &&
+    (q.x2 - q.x1) * (q.y3 - q.y1) - (q.x3 - q.x1) * (q.y2 - q.y1) != 0
+  if ok then some q else none
+
+/-- the image after adding the triangles' own sample counts; `none` when some triangle is outside R5's hypotheses
+    or the image has more than 60000 samples (evaluation budget of the driver) -/
+def triSpecAll (n w h v : Nat) (tris : List (Option Tri)) : Option (Array (Array Nat)) :=
+  if w * h * (Pixman.Gen.SampleGrid.nXFrac n).toNat * (Pixman.Gen.SampleGrid.nYFrac n).toNat > 60000 then none else
+  tris.foldl (fun acc t =>
+    match acc, t with
+    | some img, some t =>
+      some ((Array.range h).map fun (r : Nat) => (Array.range w).map fun (c : Nat) =>
+        pixelValue n ((img[r]?.getD #[])[c]?.getD 0) (triCount n t (c : Int) (r : Int)))
+    | _, _ => none) (some (Array.replicate h (Array.replicate w v)))
+
+def reply (n : Nat) (m : Img) (sp : Array (Array Nat) × String) (tie : Bool := false) (naive : Option Img := none)
+    (triSpec : Option (Array (Array Nat)) := none) : String :=
   let nf := match naive with | some q => q.rows != m.rows | none => false
-  let fl := dedup sp.2 ++ (if tie then "t" else "") ++ (if nf then "f" else "") ++ (if m.oob then "o" else "") ++ (if m.runaway then "r" else "")
+  let gf := match triSpec with | some q => sp.2.isEmpty && q != sp.1 | none => false
+  let fl := dedup sp.2 ++ (if tie then "t" else "") ++ (if nf then "f" else "") ++ (if gf then "g" else "") ++ (if m.oob then "o" else "") ++ (if m.runaway then "r" else "")
   s!"M {fmtRows n m.rows} S {fmtRows n sp.1} F {if fl.isEmpty then "-" else fl}"
 
 def fmtEdge (e : Edge) : String :=
@@ -168,7 +194,8 @@ def request : P String := do
     let xo16 := wrap16 xo
     pure (reply n m (specAll n w h v (tzs.map fun tz => shapeOfTrapezoid n h tz xo16 yo))
       (tzs.any fun tz => walkDiffers n (trapezoidSetup n h tz xo16 yo) (shapeOfTrapezoid n h tz xo16 yo))
-      (some (naiveAll n w h v (tzs.map fun tz => trapezoidSetup n h tz xo16 yo))))
+      (some (naiveAll n w h v (tzs.map fun tz => trapezoidSetup n h tz xo16 yo)))
+      (triSpecAll n w h v (ts.map fun t => specTri t xo16 yo)))
   | _ => pure "skip"
 
 def handle (line : String) : String :=
